@@ -160,6 +160,12 @@ def run(chk, repo, tier):
     # comparison numbers used by the patterns' constraints
     from . import c08 as _c08
     from .. import grammar_ir as _G, reviewed as _rv
+    # the library entry point hands the whole structure (every fragment)
+    # to the scheme
+    _rv.check(chk, 'R04.6', repo, 'pgradd/GroupAdd/Library.py',
+              'GroupLibrary.GetDescriptors',
+              'GroupLibrary.GetDescriptors passes the structure it is given, '
+              'whole, to the scheme (reviewed reference)')
     _c08.ops_table(chk, repo, _G.load(repo)[1], R2='R04.6', R3='R04.6')
     for q in ('ConstraintNumber.__init__', 'ConstraintNumber.__call__'):
         _rv.check(chk, 'R04.6', repo, 'pgradd/RDkitWrapper/MolQuery.py', q,
